@@ -90,42 +90,44 @@ Module GMM (S : TRANSC).
                     else ml_vars_frozen_means st tn (mus (g mc2)))
     else mc2.
 
-  (* gmm.py:924-1002 map_gmm_m_step.  [relevance] = Some r (Reynolds) or None (fixed alpha). *)
+  (* gmm.py:924-1002 map_gmm_m_step.  [relevance] = Some r (Reynolds) or None (fixed alpha).
+     Written as per-component helpers mapped over the components. *)
+  Definition map_alpha1 (relevance : option T) (alpha : T) (n : T) : T :=
+    match relevance with Some r => div n (add n r) | None => alpha end.
   Definition map_alpha (relevance : option T) (alpha : T) (st : stats) : list T :=
-    match relevance with
-    | Some r => map (fun n => div n (add n r)) (s_n st)
-    | None => map (fun _ => alpha) (s_n st)
-    end.
+    map (map_alpha1 relevance alpha) (s_n st).
+  (* gmm.py:951-954  alpha * n/T + (1 - alpha) * prior weight (before renormalisation) *)
+  Definition map_w0 (a n t w0 : T) : T := add (mul a (div n t)) (mul (sub one a) w0).
+  (* gmm.py:966-983 *)
+  Definition map_mean1 (eps a n : T) (sx pm : list T) : list T :=
+    if ltb n eps then pm else map2 (fun s p => add (mul a (div s n)) (mul (sub one a) p)) sx pm.
   (* [sq] selects the prior second moment used by the variance blend: [true] = prior variance +
      prior mean squared (Reynolds eq. 13, what property C05 states); [false] = prior variance +
      prior mean, un-squared, which is what gmm.py:990-996 computes today (known finding D2). *)
   Definition prior_m2 (sq : bool) (v p : T) : T := add v (if sq then mul p p else p).
+  (* gmm.py:988-1002; [m] is the component's (possibly just updated) mean *)
+  Definition map_var1 (sq : bool) (eps a n : T) (sxx pv pm m : list T) : list T :=
+    if ltb n eps then map3 (fun v p mm => sub (prior_m2 sq v p) (mul mm mm)) pv pm m
+    else map3 (fun s vp mm => sub (add (div (mul a s) n) (mul (sub one a) vp)) (mul mm mm))
+              sxx (map2 (prior_m2 sq) pv pm) m.
   Definition map_m_step (sq : bool) (sw : switches) (eps : T) (relevance : option T) (alpha : T)
              (prior : gmm) (st : stats) (mc : machine) : machine :=
     let al := map_alpha relevance alpha st in
     let mc1 :=
       if upd_ws sw then
-        let w0 := map3 (fun a n w => add (mul a (div n (ofnat (s_t st)))) (mul (sub one a) w)) al (s_n st) (ws prior) in
+        let w0 := map3 (fun a n w => map_w0 a n (ofnat (s_t st)) w) al (s_n st) (ws prior) in
         let gamma := vsum w0 in
         set_ws mc (map (fun w => div w gamma) w0)
       else mc in
     let mc2 :=
       if upd_means sw then
-        set_mus mc1
-          (map3 (fun a_n sx pm =>
-                   let a := fst a_n in let n := snd a_n in
-                   if ltb n eps then pm
-                   else map2 (fun s p => add (mul a (div s n)) (mul (sub one a) p)) sx pm)
-                (combine al (s_n st)) (s_px st) (mus prior))
+        set_mus mc1 (map3 (fun a_n sx pm => map_mean1 eps (fst a_n) (snd a_n) sx pm)
+                          (combine al (s_n st)) (s_px st) (mus prior))
       else mc1 in
     if upd_vars sw then
       set_vars mc2
         (map3 (fun a_n_sxx pv_pm m =>
-                 let a := fst (fst a_n_sxx) in let n := snd (fst a_n_sxx) in let sxx := snd a_n_sxx in
-                 let pv := fst pv_pm in let pm := snd pv_pm in
-                 if ltb n eps then map3 (fun v p mm => sub (prior_m2 sq v p) (mul mm mm)) pv pm m
-                 else map3 (fun s vp mm => sub (add (div (mul a s) n) (mul (sub one a) vp)) (mul mm mm))
-                           sxx (map2 (prior_m2 sq) pv pm) m)
+                 map_var1 sq eps (fst (fst a_n_sxx)) (snd (fst a_n_sxx)) (snd a_n_sxx) (fst pv_pm) (snd pv_pm) m)
               (combine (combine al (s_n st)) (s_pxx st)) (combine (vars prior) (mus prior)) (mus (g mc2)))
     else mc2.
 
